@@ -1002,6 +1002,11 @@ def check_c11(rng, n, thorough=False):
                     res["violations"].append({"prop": "C11", "kind": "paused-run-differs", "sig": "paused-run-differs:" + key,
                                               "detail": "k=%s segments=%s T=%s" % (k, segs, T),
                                               "input": {"spec": spec, "k": k, "segments": segs, "T": T}})
+                    if key == "rows":
+                        # two runs through the same states report different rows: one of the tables is not the state
+                        res["violations"].append({"prop": "C12", "kind": "rows-differ-after-pause", "sig": "rows-differ-after-pause",
+                                                  "detail": "the per-timestep table of a run paused at %s differs from the uninterrupted run's" % k,
+                                                  "input": {"spec": spec, "k": k, "segments": segs, "T": T}})
                     break
             if part["end"] != full["end"]:
                 res["violations"].append({"prop": "C11", "kind": "paused-run-differs", "sig": "paused-run-differs:end",
